@@ -364,10 +364,21 @@ CORPUS = [
                                         {"k": "var", "name": "", "value": {"const": 5}, "dist": None},
                                         {"k": "calc", "name": "", "pos": [1, 2, 3]}],
      "ops": [{"op": "build", "roots": [4]}, {"op": "setval", "m": 0}]},
-    {"tag": "corpus.varvalue_proxy", "objs": [{"k": "calc", "name": "own_a", "pos": []}, {"k": "calc", "name": "own_b", "pos": []},
-                                              {"k": "var", "name": "", "value": 0, "dist": None},
-                                              {"k": "var", "name": "", "value": 1, "dist": None}],
-     "ops": [{"op": "build", "roots": [2, 3]}]},
+    # F10: two unnamed variables whose value nodes carry their own names (proxies both "_var_value")
+    {"tag": "corpus.F10", "objs": [{"k": "calc", "name": "own_a", "pos": []}, {"k": "calc", "name": "own_b", "pos": []},
+                                   {"k": "var", "name": "", "value": 0, "dist": None},
+                                   {"k": "var", "name": "", "value": 1, "dist": None}],
+     "ops": [{"op": "build", "roots": [2, 3]}, {"op": "setval", "m": 0}, {"op": "pop", "m": 0},
+             {"op": "build", "roots": {"from": 2}}, {"op": "copynv", "m": 3}, {"op": "build", "roots": {"from": 4}}]},
+    {"tag": "corpus.F10b", "objs": [{"k": "value", "name": "x", "val": 2}, {"k": "calc", "name": "own_a", "pos": [0]},
+                                    {"k": "calc", "name": "own_b", "pos": [0], "seed": True},
+                                    {"k": "dist", "name": "", "pos": [0]},
+                                    {"k": "var", "name": "", "value": 1, "dist": 3, "role": "obs"},
+                                    {"k": "var", "name": "", "value": 2, "dist": None},
+                                    {"k": "var", "name": "v1", "value": {"const": 1}, "dist": None},
+                                    {"k": "calc", "name": "", "pos": [4, 5, 6]}],
+     "ops": [{"op": "build", "roots": [7], "via": "model"}, {"op": "deepcopy", "m": 0}, {"op": "setval", "m": 1},
+             {"op": "mutate", "target": {"m": 0, "var": "?any"}, "mut": "name", "arg": None}]},
     # a full statistical model with dists, roles, groups; every round trip
     {"tag": "corpus.full", "objs": [{"k": "var", "name": "mu", "value": {"const": 1}, "dist": None, "role": "param"},
                                     {"k": "dist", "name": "", "pos": [0]},
@@ -426,12 +437,15 @@ def gen_objs(rnd, n, style):
         else:
             d = free_dists.pop() if free_dists and rnd.random() < 0.7 else None
             cands = [j for j in nodeish if objs[j]["k"] == "calc" and not objs[j].get("_taken")]
-            if cands and rnd.random() < 0.4:
+            if cands and rnd.random() < 0.5:
                 v = rnd.choice(cands)
                 objs[v]["_taken"] = True
             else:
                 v = {"const": rnd.randint(-2, 6)}
-            objs.append({"k": "var", "name": name("var"), "value": v, "dist": d,
+            vname = name("var")
+            if isinstance(v, int) and objs[v]["name"] and rnd.random() < 0.6:
+                vname = ""       # stratum: unnamed variable whose value node has its own name (F10)
+            objs.append({"k": "var", "name": vname, "value": v, "dist": d,
                          "role": rnd.choice(["param", "obs", "", ""])})
             nodeish.append(i)
     # unattached dists would make the build fail for a reason outside the property: attach them
@@ -650,8 +664,13 @@ def generate(ctx):
     seen = set()
     for c in cases:
         ctx.hist("style=" + c["tag"].split(".")[0])
-        if finding_varvalue(c):
-            ctx.hist("finding_candidate.unnamed_vars_with_named_value_nodes_rejected")
+        for st in c["steps"]:
+            if st["op"]["op"] == "build":
+                pre = c["snaps"][st["pre"]]
+                cl, clv = closure_of(pre, st["rn"], st["rv"])
+                k = sum(1 for v in clv if _default_proxy(pre, pre["vars"][v]["varvalue"]) and pre["nodes"][pre["vars"][v]["value"]]["name"])
+                if k:
+                    ctx.hist("build.unnamed_vars_with_named_value_node" + (">=2" if k >= 2 else "=1"))
         for s in c["steps"]:
             k = s["op"]["op"]
             if k == "build":
@@ -891,9 +910,6 @@ def strip_model_part(summ):
 
 def oracle(c):
     snaps = c["snaps"]
-    if REPORT_FINDING_VARVALUE and finding_varvalue(c):
-        return ("two unnamed variables with user-named value nodes: build rejected with 'Duplicate node names: _var_value' "
-                "although no user-supplied name is repeated")
     built = {}
     for s in c["steps"]:
         op = s["op"]
@@ -972,8 +988,10 @@ def oracle(c):
                 built[("opidx", _opindex(c, s))] = summ
             else:
                 # rejection must have a reason the property names
-                names = [post["nodes"][i]["name"] for i in cl if not _stale_seed(pre, i)]
-                prenames = [pre["nodes"][i]["name"] for i in cl if pre["nodes"][i]["name"] and not _stale_seed(pre, i)]
+                names = [post["nodes"][i]["name"] for i in cl if not _stale_seed(pre, i)
+                         and not (_default_proxy(pre, i) and post["nodes"][i]["name"] == "_var_value")]
+                prenames = [pre["nodes"][i]["name"] for i in cl if pre["nodes"][i]["name"] and not _stale_seed(pre, i)
+                            and not _default_proxy(pre, i)]
                 vnames = [pre["vars"][v]["name"] for v in clv if pre["vars"][v]["name"]]
                 dup = len(set(prenames)) != len(prenames) or len(set(vnames)) != len(vnames)
                 gn = [pre["gnames"][g] for g in {g for i in cl for g in pre["nodes"][i]["groups"]} | {g for v in clv for g in pre["vars"][v]["groups"]}]
@@ -1051,6 +1069,14 @@ def _opindex(c, s):
     return j
 
 
+def _default_proxy(sn, i):
+    """the VarValue proxy of a still unnamed variable, carrying the name Var.__init__ gave it ("_var_value"):
+    not a user-supplied name - naming the variable must rename it"""
+    n = sn["nodes"][i]
+    return (n["kind"] == "VarValue" and n["var"] is not None and sn["vars"][n["var"]]["name"] == ""
+            and n["name"] == "_var_value" and sn["vars"][n["var"]]["varvalue"] == i)
+
+
 def _stale_seed(sn, i):
     n = sn["nodes"][i]
     return n["name"].startswith("_model_") and n["name"].endswith("_seed") and not n["inmodel"]
@@ -1094,25 +1120,8 @@ def _wdiff(a, b):
     return "new objects appeared"
 
 
-REPORT_FINDING_VARVALUE = False   # candidate finding (notes/C15_repro_unnamed_var_value_name.py): counted, not alarmed
-
-
-def finding_varvalue(c):
-    """a build rejected for duplicate node names where the only repeated name is the proxy name "_var_value"
-    that Var.__init__ gives to unnamed variables (the user supplied no duplicate name)"""
-    for s in c["steps"]:
-        if s["op"]["op"] == "build" and not s["ok"] and s.get("err") == "dupnode":
-            post = c["snaps"][s["post"]]
-            cl, _ = closure_of(c["snaps"][s["pre"]], s["rn"], s["rv"])
-            names = [post["nodes"][i]["name"] for i in cl if not _stale_seed(c["snaps"][s["pre"]], i)]
-            dups = {x for x in names if names.count(x) > 1}
-            if dups == {"_var_value"}:
-                return True
-    return False
-
-
 def klass(c):
-    return "C15-unnamed-var-proxy-name" if finding_varvalue(c) else None
+    return None
 
 
 def slim(c, why=None):
